@@ -253,7 +253,14 @@ func (sim *BmQSimulator) BmMatrixFromOperation(op []*bmline.BasmLine) (*bmmatrix
 				for i, arg := range op[fundLine].Elements {
 					argName := arg.GetValue()
 					if _, ok := sim.qbitsNum[argName]; ok {
-						localOrder[i] = sim.qbitsNum[argName]
+						// Position of the qbit in the current local order: previous multi qbit
+						// operations of the same matrix may have already moved it
+						for pos, name := range localQBits {
+							if name == argName {
+								localOrder[i] = pos
+								break
+							}
+						}
 					} else {
 						// Leaving out the arguments that are not qbits
 						localOrder[i] = -1
